@@ -214,10 +214,11 @@ Proof.
 Qed.
 Print Assumptions C09_block_cache_consistent_refuted.
 
-(* non-vacuity: (1) a concrete run meets the hypotheses of the wiring and cache theorems;
-   (2) a 2x2 lattice with weights 1,2,3,4 and the exact Gibbs kernels meets those of the invariance theorem *)
+(* non-vacuity: (1) a concrete run meets the hypotheses of the wiring and cache theorems; (2) the concrete sampler kinds
+   keep their point under re-targeting and tuning; (3) a 2x2 lattice with weights 1,2,3,4 and the exact Gibbs kernels meets those of the invariance theorem *)
 Example C09_example :
   (let x := hybrid_run true w_fs [KMH; KMH] [[1]; [2]]%Q [1; 1]%Q [] w_sc [] in
    length (g_ss (r_st x)) = length (g_cur (r_st x)) /\ insync s_pt (r_st x) /\ r_log x = []) /\
+  ((forall f i t s, s_pt (creinit f i t s) = s_pt s) /\ (forall i a b s, s_pt (ctune i a b s) = s_pt s)) /\
   Forall (fblock_ok 0%Z ex_all ex_pi) ex_blocks.
-Proof. split; [exact ex_run_ok | exact ex_blocks_ok]. Qed.
+Proof. split; [exact ex_run_ok | split; [exact ex_points_kept | exact ex_blocks_ok]]. Qed.
